@@ -70,6 +70,23 @@ CHECKS = {
              'boundaries, serial boundaries), banner (420 forms) and DH/GEX/disconnect messages: compose == '
              'reference, parse(reference) == fields.',
         design='§5 C07'),
+    'C08': dict(
+        technique='exhaustive enumeration of RDATA wire forms against an independent reference encoder and key-tag '
+                  'algorithm',
+        text='DNSKEY RDATA built by dns_ref: 5 RSA algorithms x 7 exponent lengths (1- and 3-octet length forms) x 8 '
+             'modulus bit lengths x 4 top-byte patterns, all 2^16 flag words, DSA T 0..8, ECDSA/GOST coordinate '
+             'boundaries, Ed25519/Ed448; DS, RRSIG (all RR types, label/TTL/timestamp boundaries), MX, names (all '
+             'label sequences <= 3), TXT partitions: parsed, reproduced bit-exactly, key_tag == RFC 4034 App. B over the '
+             'wire RDATA; object side: compose == reference.',
+        design='§5 C08'),
+    'C09': dict(
+        technique='exhaustive enumeration of specification-level field spaces against an independent reference encoder',
+        text='MySQL HandshakeV10 over every lower capability word x 3 upper words, all status words, all character '
+             'sets, auth-plugin lengths; SSLRequest both layouts; TPKT; X.224 CR/CC; all RDP flag x protocol subsets; '
+             'OpenVPN packet classes x ack arrays of every length 0..255; PostgreSQL; LDAP with every result code: the '
+             'reference encoding parses to the TYPE on the wire with the encoded fields, and composing those fields '
+             'gives the reference bytes.',
+        design='§5 C09'),
     'C10': dict(
         technique='complete enumeration of code spaces through the real decoders and list containers',
         text='All 2^8 / 2^16 codes of all 16 code-point factories, alone and as only / first / second element of '
